@@ -11,6 +11,7 @@ CONSTANTS
   TrustScanOrder = FALSE
   SwapBeforeApply = FALSE
   BatchOnSharedCopy = FALSE
+  BuildTrustsStorage = FALSE
   MaxSteps = 24
 INVARIANT Emit
 CHECK_DEADLOCK FALSE
